@@ -30,7 +30,7 @@ SPLIT_KINDS = True         # thorough tier: one shard per geometry kind
 DECIDING_COUNTERS = ["ops_checked"]
 
 PROVS = ["from_pandas", "filter", "cached-filter", "set_geometry", "build_sindex", "pack_partitions", "parquet",
-         "parquet-geometry", "parquet-bounds", "parquet-filter", "pack_to_parquet"]
+         "parquet-geometry", "parquet-bounds", "parquet-filter", "pack_to_parquet", "parquet-mixed"]
 
 
 def shards(tier, seed):
@@ -153,6 +153,20 @@ def check_case(ctx, case):
                     bx = case["boxes"][0]
                     ddf = guarded("read", lambda: read_parquet_dask(path, geometry="shape",
                                                                     bounds=(bx[0], bx[1], bx[2], bx[3])))
+            elif prov == "parquet-mixed":
+                # two datasets read in one call, only one of them written with the spatial metadata
+                h_ = max(1, len(df) // 2)
+                pa_, pb_ = os.path.join(root, "a.parq"), os.path.join(root, "b.parq")
+                fa = dd.from_pandas(df.iloc[:h_], npartitions=max(1, min(npart, h_)), sort=False)
+                if guarded("to_parquet", lambda: (fa.to_parquet(pa_), 1)[1]) is None:
+                    return
+                paths_ = [pa_]
+                if len(df) > h_:
+                    fb = dd.from_pandas(df.iloc[h_:], npartitions=max(1, min(3, len(df) - h_)), sort=False)
+                    if guarded("plain-to_parquet", lambda: (dd.to_parquet(fb, pb_, write_metadata_file=False), 1)[1]) is None:
+                        return
+                    paths_ = [pa_, pb_] if case["seed"] % 2 else [pb_, pa_]
+                ddf = guarded("read", lambda: read_parquet_dask(paths_, geometry="shape"))
             else:
                 path = os.path.join(root, "p.parq")
                 ddf = guarded("pack_to_parquet", lambda: base.pack_partitions_to_parquet(
